@@ -614,7 +614,7 @@ class Enc:
                 for v in values:
                     isvalid = v is not None
                     if isvalid == vw:
-                        mask.append(rng.choice([1, 1, 2, -1, 127]))    # any non-zero byte
+                        mask.append(1)
                     else:
                         mask.append(0)
                 return BM(vw, mask, content)
